@@ -1,7 +1,8 @@
 #!/bin/bash
-# try_seed.sh <seed-name> <ID> [tier] : apply seeded/<name>/patch.diff to /repo, run ./check, undo.
+# try_seed.sh <seed-name> <ID> [tier] : apply seeded/<name>/patch.diff to /repo, run ./check, undo, re-run on the clean tree
 NAME=$1; ID=$2; TIER=${3:-quick}
 cd /repo && git apply /verif/seeded/$NAME/patch.diff || exit 2
-cd /verif && ./check $ID $TIER 2>&1 | tail -6; rc=${PIPESTATUS[0]}
+cd /verif && ./check $ID $TIER 2>&1 | grep -v "^KNOWN-FINDING" | tail -4; rc=${PIPESTATUS[0]}
 git -C /repo checkout -- .
 echo "seed $NAME on $ID $TIER -> rc=$rc"
+./check $ID quick >/dev/null 2>&1 || echo "WARNING: clean re-run of $ID did not exit 0"
